@@ -500,6 +500,12 @@ def tree_oracle(inp):
     Xq = numpy.array(inp["X"] + inp["Xq"], dtype=float)
     # "all training sets": a feature expressed in another unit (column 0 multiplied by 10^e); the least-squares
     # prediction is the same function of the rows, and is computed below in exact rational arithmetic
+    if inp.get("extra_column"):
+        # a leaf design that is exactly rank-deficient although it has more rows than coefficients: a column that is 0
+        # on every row, or a copy of column 0 (fitted values on the training rows are still unique)
+        col = numpy.zeros((X.shape[0], 1)) if inp["extra_column"] == "zero" else X[:, :1].copy()
+        colq = numpy.zeros((Xq.shape[0], 1)) if inp["extra_column"] == "zero" else Xq[:, :1].copy()
+        X, Xq = numpy.hstack([X, col]), numpy.hstack([Xq, colq])
     e10 = int(inp.get("col0_exp10", 0))
     if e10:
         X[:, 0] *= 10.0 ** e10
@@ -581,11 +587,25 @@ def tree_oracle(inp):
             req = float(numpy.append(Xq[k], 1.0) @ beta)
             ok = abs(pred[k] - req) <= 1e-6 * max(1.0, abs(req))
         if not ok:
-            bad.append(("PiecewiseTreeRegressor.%s:leaf-prediction" % crit,
+            bad.append((KEY_DUP if inp.get("extra_column") == "copy" and crit == "mselin"
+                        else "PiecewiseTreeRegressor.%s:leaf-prediction" % crit,
                         "prediction is not the %s of the training rows sharing the leaf"
                         % ("mean" if crit == "simple" else "least-squares fit"), float(pred[k]), req))
             break
     return bad
+
+
+#: KNOWN FINDING (DESIGN 12.4): a leaf whose design holds the same column twice.  `_reglin` calls dgelss with rcond = -1
+#: (machine precision); the singular value that is zero in exact arithmetic comes out as ~1e-15 * s_max, is NOT treated as
+#: zero, and the coefficients are +-6e14: the prediction on a training row is off by 8.  The probe is the input the
+#: thorough search met; the random stream only adds all-zero columns (singular value exactly 0, handled).
+KEY_DUP = "PiecewiseTreeRegressor.mselin:leaf-prediction:duplicated-column"
+DUP_PROBE = {"X": [[v] for v in (36, 56, 54, 6, 10, 46, 45, 20, 2, 35, 11, 33, 40, 57, 34, 26, 17, 47, 14, 58, 42, 27, 29, 55, 12,
+                                 38, 53, 7, 13, 30, 49, 16, 37, 51, 41, 1, 3, 39, 52, 31, 50, 28, 32, 25)],
+             "y": [-30, -48, -45, -14, -3, -49, 140, -19, -5, 107, 39, 92, -33, 166, -40, -25, 44, 144, -16, -67, -47, 89, 87,
+                   172, -14, -43, 157, 26, 32, -24, 139, -21, 103, 160, 120, 6, 13, 113, -57, 85, -56, -34, -31, 80],
+             "Xq": [[11], [24], [35], [41]], "criterion": "mselin", "max_depth": 2, "min_samples_leaf": 1,
+             "oracle": "tree", "failed_fit_first": False, "extra_column": "copy"}
 
 
 def copy_oracle(inp):
@@ -647,6 +667,10 @@ def search(ctx, hints):
                         vs.append(Violation(key, what, inp, obs, req))
                     if len(samples) < 2 and n == 4 and kind == "fast":
                         samples.append({k: inp[k] for k in ("kind", "n", "y", "w", "samples", "start", "pos", "end")})
+    # known-finding probe (duplicated column)
+    evals += 1
+    for key, what, obs, req in tree_oracle(dict(DUP_PROBE)):
+        vs.append(Violation(key, what, dict(DUP_PROBE), obs, req))
     # (b) fitted trees
     for t in range(ctx.pick(30, 300)):
         d = rng.choice([1, 1, 2])
@@ -661,7 +685,9 @@ def search(ctx, hints):
             inp["query_dtype"] = "int64"
         if t % 3 == 0:
             inp["shallow_copy_then_refit"] = True
-        if t % 6 == 3 and inp["criterion"] == "mselin":
+        if t % 5 == 1 and "col0_exp10" not in inp:
+            inp["extra_column"] = "zero"        # (a duplicated column is the recorded finding KEY_DUP: fixed probe below)
+        if t % 6 == 3 and inp["criterion"] == "mselin" and "extra_column" not in inp:
             inp["col0_exp10"] = rng.choice([-10, -12, 10])
         evals += 1
         nontriv.add(("tree", t))
